@@ -36,8 +36,8 @@ def run_check(run, prop):
     opkinds = {}
     first_dis = None
     for case, model, res in zip(cases, models, results):
-        ops, ps, sm, caching = case
-        key = json.dumps([ops, ps, sm, caching])
+        ops, ps, sm, caching, cc = case
+        key = json.dumps([ops, ps, sm, caching, cc])
         distinct.add(key)
         for o in ops:
             opkinds[o[0]] = opkinds.get(o[0], 0) + 1
@@ -45,11 +45,11 @@ def run_check(run, prop):
         if "harness_error" in res or "start_error" in res:
             run.broken.append("wire harness failed: %s" % (res.get("harness_error") or res.get("start_error")))
             continue
-        v01, v02 = S.monitors(res, caching)
+        v01, v02 = S.monitors(res, caching, cc)
         mine = v02 if prop == "C02" else v01
         for v in mine[:1]:
             run.violation("counterexample", "%s monitor on the implementation: %s" % (prop, json.dumps(v)),
-                          {"input": {"ops": ops, "pool_size": ps, "session_mode": sm, "caching": caching}, "monitor": v, "scenario": S.scenario(*case)})
+                          {"input": {"ops": ops, "pool_size": ps, "session_mode": sm, "caching": caching, "cleanup_server_connections": cc}, "monitor": v, "scenario": S.scenario(*case)})
         il = S.impl_conn_logs(res)
         handoffs += sum(1 for _, items in il for i, x in enumerate(items) if x["k"] == "client" and any(y["k"] == "client" and y["c"] != x["c"] for y in items[:i]))
         if model is not None:
@@ -64,7 +64,7 @@ def run_check(run, prop):
         run.cov["disagreements_checked"] += 1
         run.violation("tie-broken", "session model and implementation disagree: %s" % dis[0],
                       {"correspondence": "coq/Session/Model.v run vs wire trace (per-connection statement log)",
-                       "input": {"ops": case[0], "pool_size": case[1], "session_mode": case[2], "caching": case[3]},
+                       "input": {"ops": case[0], "pool_size": case[1], "session_mode": case[2], "caching": case[3], "cleanup_server_connections": case[4]},
                        "disagreement": dis, "model_events": model[0], "impl": [(cid, [(x["k"], x.get("c"), x.get("sql")) for x in items]) for cid, items in S.impl_conn_logs(res)]},
                       found_input=False)
     # soak: free-running concurrent clients (thread-level interleavings the op model does not enumerate)
@@ -86,7 +86,7 @@ def run_check(run, prop):
             ps = max(u["pool_size"] if isinstance(u, dict) and "pool_size" in u else 0 for u in [{}])
     run.cov["soak"] = {"runs": nsoak, "backend_messages_observed": soak_msgs}
     run.cov["distinct_nontrivial"] = len(distinct)
-    run.cov["rule"] = ("13 directed op sequences (regressions of repaired defects) + seeded random sequences of 5-14 ops over 2-3 clients + a canary, pool sizes 1-2, "
+    run.cov["rule"] = ("24 directed op sequences (regressions of repaired defects) + seeded random sequences of 5-14 ops over 2-3 clients + a canary, pool sizes 1-2, "
                        "transaction/session mode, caching on/off; ops: Connect, Query(1-3 statements of Begin/Commit/Rollback/Select/Set/Prepare/Fail/CopyIn), Batch(named?), CopyDone/Fail, "
                        "Terminate, Drop, BadMsg, PanicMsg, IdleTimeout, StmtTimeout, ServerDies. distinct = distinct (ops, pool size, mode, caching) tuples; all are non-trivial (>= 1 hand-off or fault)")
     run.cov["samples"] = [{"ops": cases[0][0], "pool_size": cases[0][1], "model_events": models[0][0] if models[0] else None},
@@ -108,7 +108,7 @@ def replay(run, path):
     if "scenario" in r:
         bok, blog, bins = vlib.cargo_build(["wire"])
         res = W.run_scenario(bins["wire"], r["scenario"])
-        v01, v02 = S.monitors(res, r["input"].get("caching", False))
+        v01, v02 = S.monitors(res, r["input"].get("caching", False), r["input"].get("cleanup_server_connections", True))
         print("replay monitors: C01", v01, "C02", v02)
         return 1 if (v02 if PROP == "C02" else v01) else 0
     return 0
